@@ -325,7 +325,7 @@ def main(tier):
     progs = load_progs()
     rep = common.Reporter(PID)
     tmo = 1800 if tier == "quick" else 3000
-    deadline = t0 + (2700 if tier == "quick" else 5400)
+    deadline = time.time() + (2700 if tier == "quick" else 5400)      # after the MIR dumps
     cfgs = CONFIGS[tier]
     only = os.environ.get("VERIF_C04_ONLY")        # development aid: run the configurations whose name contains this text
     if only:
